@@ -178,7 +178,9 @@ func genReq(r *wire.Rng, kinds []kind.Kind, p mProxy) mReq {
 			q.Keys = append(q.Keys, k)
 		}
 	}
-	switch r.Intn(6) {
+	switch r.Intn(7) {
+	case 6:
+		// no reason at all (a caller of ConfigUpdate that gives none)
 	case 0:
 		q.Reasons = []string{"headlessendpoint"}
 	case 1:
@@ -915,8 +917,10 @@ func oracleNeeds(in, out string) {
 				a, b := parseReq(f[1:5]), parseReq(f[5:9])
 				_, m := mergeReal(a, b, e.push)
 				da, db, dm := dec(mp, a), dec(mp, b), dec(mp, m)
+				// (hypothesis of pushDecision_mono_merge: both requests carry a reason - a request WITHOUT one merged with a
+				// headless-endpoint-only request is headless-endpoint-only, see notes/C01.md "assumed")
 				for _, t := range types {
-					if (da[t] || db[t]) && !dm[t] {
+					if (da[t] || db[t]) && !dm[t] && len(a.Reasons) > 0 && len(b.Reasons) > 0 {
 						fail("mono-merge", t)
 					}
 				}
